@@ -1,13 +1,13 @@
 SPECIFICATION Spec
 CONSTANTS
-  MaxToks = 2
-  MaxTokLen = 2
+  MaxToks = 4
+  MaxTokLen = 0
   MaxStack = 99
   WS <- MCWS
-  TokPool <- CharToks
-  Styles <- AllStyles
-  Seps <- QuickSeps
-  Pads <- QuickPads
+  TokPool <- WordToks
+  Styles <- BareOnly
+  Seps <- OneSep
+  Pads <- NoPad
 INVARIANT TypeOK
 INVARIANT NoError
 INVARIANT RoundTrip
